@@ -109,7 +109,7 @@ impl TimeZoneProvider for HostileProvider {
 
 /// Every zoned operation with the given provider; only panics / internal-assertion errors are failures.
 pub fn drive(out: &mut Out, provider: &impl TimeZoneProvider, zone_name: &str, env_label: &str, instants: &[i128]) {
-    let tz = TimeZone::try_from_str(zone_name).unwrap();
+    let tz = crate::imp::zone_of(zone_name).unwrap_or(TimeZone::IanaIdentifier(zone_name.to_string()));
     let probe = |out: &mut Out, op: &str, t: i128, got: Oc<String>| {
         out.lockstep(op, &Ok(String::new()), &got, |_, _| true, || vec![("environment", env_label.to_string()), ("instant", t.to_string())]);
     };
